@@ -523,9 +523,16 @@ const NLS: [&str; 5] = ["\n", "\n", "\r\n", "\r", "\n\n"];
 const BAD: [&[u8]; 9] =
     [&[0xff], &[0xc3], &[0xe2, 0x80], &[0xf0, 0x9f], &[0xed, 0xa0, 0x80], &[0xc0, 0xaf], &[0x80], &[0xf0, 0x9f, 0x98], &[0xe2, 0x82]];
 
+/// code points that software likes to treat specially at the START of a text (byte-order mark, other zero-width /
+/// format characters, a shebang); every ninth random text begins with one of them
+const LEADERS: [&str; 6] = ["\u{feff}", "\u{fffe}", "\u{200b}", "\u{2060}", "#!", "\u{feff}\u{feff}"];
+
 /// a random text as a list of units (words, separators, terminators, for `invalid` also broken UTF-8)
 pub fn random_units(rng: &mut Rng, max_lines: usize, invalid: bool) -> Vec<Vec<u8>> {
     let mut u: Vec<Vec<u8>> = vec![];
+    if rng.chance(1, 9) {
+        u.push(LEADERS[rng.below(LEADERS.len())].as_bytes().to_vec());
+    }
     let lines = rng.below(max_lines + 1);
     for l in 0..lines {
         let words = rng.below(6);
@@ -579,6 +586,14 @@ fn edit_units(rng: &mut Rng, base: &[Vec<u8>], edits: usize, invalid: bool) -> V
             _ => WORDS[rng.below(WORDS.len())].as_bytes().to_vec(),
         }
     };
+    if rng.chance(1, 12) {
+        // a special leading code point on THIS side only (or removed from this side only)
+        if v.first().map_or(false, |f| LEADERS.iter().any(|l| l.as_bytes() == &f[..])) {
+            v.remove(0);
+        } else {
+            v.insert(0, LEADERS[rng.below(LEADERS.len())].as_bytes().to_vec());
+        }
+    }
     for _ in 0..edits {
         match rng.below(3) {
             0 if !v.is_empty() => {
@@ -638,6 +653,13 @@ fn ws_one(ctx: &mut Ctx, lo: u32, hi: u32) -> String {
 fn terminator_change_pairs(heads: &[usize]) -> Vec<(Vec<u8>, Vec<u8>)> {
     let terms = ["\n", "\r\n", "\r", ""];
     let mut v = vec![];
+    // a byte-order mark (or another special leading code point) on one side only, alone and in front of text
+    for l in LEADERS {
+        for body in ["", "a\n", "a\nb", "\n"] {
+            v.push((format!("{}{}", l, body).into_bytes(), body.as_bytes().to_vec()));
+            v.push((format!("{}{}", l, body).into_bytes(), format!("{}{}x", l, body).into_bytes()));
+        }
+    }
     for &h in heads {
         let head: String = (0..h).map(|i| format!("line {}\n", i)).collect();
         for (a, t1) in terms.iter().enumerate() {
@@ -3139,6 +3161,20 @@ pub fn suite_remap(ctx: &mut Ctx) {
     };
     if ctx.take() {
         remap_many_distinct_tokens(ctx);
+    }
+    // WIDE tokens: neighbouring lines / words of 255, 256, 65 535, 65 536 and 66 000 bytes with an edit in the second one
+    // (a narrower integer for a token width or offset anywhere in the remapper shows only here)
+    for (wi, &w) in [254usize, 255, 256, 257, 65_534, 65_535, 65_536, 66_000].iter().enumerate() {
+        if !ctx.take() {
+            continue;
+        }
+        let line = |c: char, n: usize| -> String { std::iter::repeat(c).take(n).collect::<String>() };
+        for (sep, kind) in [("\n", Kind::Lines), (" ", Kind::Words)] {
+            let old = format!("{}{}{}{}tail{}", line('a', w), sep, line('b', w + wi % 2), sep, sep);
+            let new = format!("{}{}{}X{}tail{}", line('a', w), sep, line('b', w + wi % 2), sep, sep);
+            ctx.count("remap.wide_token_cases");
+            remap_case(ctx, kind, ALGS[wi % 3], if wi % 2 == 0 { Mode::Str } else { Mode::Bytes }, old.as_bytes(), new.as_bytes());
+        }
     }
     // the slice helper: every pair up to length 3 over 3 symbols, and random pairs of the seven families
     let small = gen::all_seqs(3, 3);
